@@ -42,14 +42,16 @@ impl AddAssign<ByteSize> for Address {
 impl Add<ByteOffset> for Address {
     type Output = Address;
     fn add(self, offset: ByteOffset) -> Address {
-        Address((self.0 as isize + offset) as usize)
+        // Not `self.0 as isize + offset`: that sum overflows `isize` exactly when the result crosses
+        // the middle of the address space, which is not an error (the result still fits in `usize`).
+        Address(self.0.wrapping_add_signed(offset))
     }
 }
 
 /// Address += ByteOffset (positive or negative)
 impl AddAssign<ByteOffset> for Address {
     fn add_assign(&mut self, offset: ByteOffset) {
-        self.0 = (self.0 as isize + offset) as usize
+        self.0 = self.0.wrapping_add_signed(offset)
     }
 }
 
